@@ -121,6 +121,7 @@ def b32sha1(data):
 def http_payload_offset(block):
     '''Offset of the first byte after the first empty line of the HTTP message in the block, or None.'''
     pos = 0
+    started = False
     while True:
         idx = block.find(b'\n', pos)
         if idx < 0:
@@ -128,7 +129,10 @@ def http_payload_offset(block):
         line = block[pos:idx + 1]
         pos = idx + 1
         if line in (b'\r\n', b'\n'):
+            if not started:
+                continue        # empty lines in front of the start line belong to no message (RFC 7230 section 3.5)
             return pos
+        started = True
 
 
 def http_status_and_mime(block):
@@ -136,6 +140,8 @@ def http_status_and_mime(block):
     end = http_payload_offset(block)
     head = block[:end] if end is not None else block
     lines = re.split(br'\r?\n', head)
+    while len(lines) > 1 and lines[0] == b'':
+        lines.pop(0)
     m = re.match(br'^HTTP/\d+\.\d+[ \t]+(\d{3})', lines[0]) if lines else None
     status = m.group(1).decode() if m else None
     mime = None
